@@ -2,6 +2,9 @@
 C16 — Compaction never changes the latest value of any key.
 -/
 import Klev.Proofs.HelpersOK
+import Klev.Proofs.CompactPure
+import Klev.Proofs.CompactOK
+import Klev.Proofs.Reach
 namespace Klev.C16
 
 /-- `FindUpdates` selects exactly the scanned messages (not newer than the cut-off, up to
@@ -19,7 +22,207 @@ theorem findDeletes_ok (l : Log) (h : Inv l) (t : Int) :
     Inv (Helpers.findDeletes l t).1 ∧ abs (Helpers.findDeletes l t).1 = abs l :=
   Klev.findDeletes_ok l h t
 
+open Helpers
+
+/-! ### The pure (L0) facts: removing any subset of a selection keeps every key's latest value -/
+
+/-- What it means to be selected by `FindUpdates`: the message is scanned and has a later
+scanned message with the same key (byte equality). -/
+theorem mem_hasLaterSameKey {L : List Msg} (hp : L.Pairwise (fun a b => a.off < b.off)) {d : Msg}
+    (hd : d ∈ Spec.hasLaterSameKey L) : d ∈ L ∧ ∃ m ∈ L, m.key = d.key ∧ d.off < m.off :=
+  Spec.mem_hasLaterSameKey hp hd
+
+/-- What it means to be selected by `FindDeletes`: the message is scanned, has no value, and
+is the oldest scanned message of its key. -/
+theorem mem_firstOfKeyNoValue {L : List Msg} (hp : L.Pairwise (fun a b => a.off < b.off)) {d : Msg}
+    (hd : d ∈ Spec.firstOfKeyNoValue L []) :
+    d ∈ L ∧ d.val = [] ∧ ∀ m ∈ L, m.key = d.key → d.off ≤ m.off :=
+  Spec.mem_firstOfKeyNoValue hp hd
+
+/-- Removing messages each of which has a *later* live message with the same key never
+changes the latest value of any key. -/
+theorem latest_removeAll_of_later (s s' : Spec) (hwf : Spec.WF s) (del : List Msg)
+    (hlive : s'.live = Spec.removeAll s.live del)
+    (hdel : ∀ d ∈ del, ∃ m ∈ s.live, m.key = d.key ∧ d.off < m.off) :
+    ∀ k, Spec.latest s' k = Spec.latest s k :=
+  Spec.latest_removeAll_of_later s s' hwf del hlive hdel
+
+/-- Removing value-less messages each of which is the *oldest* live message of its key never
+changes the latest value of any key (if such a message is also the last of its key, the key
+was absent before — value-less means absent — and has no message afterwards: absent again). -/
+theorem latest_removeAll_of_first_novalue (s s' : Spec) (hwf : Spec.WF s) (del : List Msg)
+    (hlive : s'.live = Spec.removeAll s.live del)
+    (hdel : ∀ d ∈ del, d ∈ s.live ∧ d.val = [] ∧ ∀ m ∈ s.live, m.key = d.key → d.off ≤ m.off) :
+    ∀ k, Spec.latest s' k = Spec.latest s k :=
+  Spec.latest_removeAll_of_first_novalue s s' hwf del hlive hdel
+
+/-- **CompactUpdates, pure form**: removing *any* subset of the `FindUpdates` selection (one
+segment's worth, all of it, or what a failed pass left) keeps the latest value of every key,
+and every removed message is not newer than the cut-off and has a later live message with
+the same key. Any cut-off time. -/
+theorem compactUpdates_latest (s s' : Spec) (hwf : Spec.WF s) (t : Int) (del : List Msg)
+    (hsel : ∀ d ∈ del, d ∈ s.live ∧ d.off ∈ Spec.offsOf (Spec.hasLaterSameKey (Spec.scanned s t)))
+    (hlive : s'.live = Spec.removeAll s.live del) :
+    Spec.CompactLatestOK s s' ∧ (∀ k, Spec.latest s' k = Spec.latest s k) ∧
+      Spec.CompactUpdatesRemovedOK s t del :=
+  Spec.compactUpdates_latest s s' hwf t del hsel hlive
+
+/-- **CompactDeletes, pure form**: removing *any* subset of the `FindDeletes` selection keeps
+the latest value of every key, and every removed message is value-less, not newer than the
+cut-off, and the oldest live message of its key. -/
+theorem compactDeletes_latest (s s' : Spec) (hwf : Spec.WF s) (t : Int) (del : List Msg)
+    (hsel : ∀ d ∈ del, d ∈ s.live ∧
+      d.off ∈ Spec.offsOf (Spec.firstOfKeyNoValue (Spec.scanned s t) []))
+    (hlive : s'.live = Spec.removeAll s.live del) :
+    Spec.CompactLatestOK s s' ∧ (∀ k, Spec.latest s' k = Spec.latest s k) ∧
+      Spec.CompactDeletesRemovedOK s t del :=
+  Spec.compactDeletes_latest s s' hwf t del hsel hlive
+
+/-- **At most one message per key, pure form**: once the whole `FindUpdates` selection is
+gone, on a log whose times never decrease with offset there is at most one message per key
+among those not newer than the cut-off. -/
+theorem compactUpdatesMulti_one_per_key (s s' : Spec) (hwf : Spec.WF s) (hmono : Spec.Monotone s)
+    (t : Int) (del : List Msg) (hlive : s'.live = Spec.removeAll s.live del)
+    (hfull : ∀ m ∈ s'.live, m.off ∉ Spec.offsOf (Spec.hasLaterSameKey (Spec.scanned s t))) :
+    Spec.AtMostOnePerKey s' t :=
+  Spec.compactUpdatesMulti_one_per_key s s' hwf hmono t del hlive hfull
+
+/-! ### The model: `CompactUpdates[Multi]` / `CompactDeletes[Multi]` = find, then Delete / DeleteMulti -/
+
+/-- Closed form of `FindUpdates` (the map-based loop of compact_updates.go run over the
+scanned messages); it only loads indexes. -/
+theorem findUpdates_eq (l : Log) (h : Inv l) (t : Int) :
+    ∃ l', Loaded l l' ∧ findUpdates l t =
+      (l', .ok ((Spec.scanned (abs l) t).foldl updStep ([], [])).2) :=
+  Klev.findUpdates_eq l h t
+
+/-- Closed form of `FindDeletes`, with equality (same order, not only the same set). -/
+theorem findDeletes_eq (l : Log) (h : Inv l) (t : Int) :
+    ∃ l', Loaded l l' ∧ findDeletes l t =
+      (l', .ok (Spec.offsOf (Spec.firstOfKeyNoValue (Spec.scanned (abs l) t) []))) :=
+  Klev.findDeletes_eq l h t
+
+/-- **Clause "the latest value of every key is the same before and after CompactUpdates", and
+"CompactUpdates removes only messages not newer than the cut-off that have a later message
+with the same key".** For every log satisfying the invariant, every cut-off time, both modes
+(`CompactUpdates`: one `Delete`; `CompactUpdatesMulti`), any handle, whether or not a pass
+fails: the invariant is kept, exactly the reported messages are removed, `NextOffset` is
+kept, the latest value of *every* key is unchanged, and every removed message is as
+promised. -/
+theorem compactUpdates_model (l : Log) (h : Inv l) (t : Int) (multi : Bool) :
+    let r := thenDelete multi (findUpdates l t)
+    Inv r.1 ∧ (abs r.1).live = Spec.removeAll (abs l).live r.2.msgs ∧ (abs r.1).next = (abs l).next ∧
+    Spec.CompactLatestOK (abs l) (abs r.1) ∧ (∀ k, Spec.latest (abs r.1) k = Spec.latest (abs l) k) ∧
+    Spec.CompactUpdatesRemovedOK (abs l) t r.2.msgs :=
+  Klev.compactUpdates_model l h t multi
+
+/-- **Clause "… before and after CompactDeletes", and "CompactDeletes removes only value-less
+messages not newer than the cut-off that are the oldest live message of their key".** Same
+generality as `compactUpdates_model`. -/
+theorem compactDeletes_model (l : Log) (h : Inv l) (t : Int) (multi : Bool) :
+    let r := thenDelete multi (findDeletes l t)
+    Inv r.1 ∧ (abs r.1).live = Spec.removeAll (abs l).live r.2.msgs ∧ (abs r.1).next = (abs l).next ∧
+    Spec.CompactLatestOK (abs l) (abs r.1) ∧ (∀ k, Spec.latest (abs r.1) k = Spec.latest (abs l) k) ∧
+    Spec.CompactDeletesRemovedOK (abs l) t r.2.msgs :=
+  Klev.compactDeletes_model l h t multi
+
+/-- `thenDelete true` (the `…Multi` form) after a `Find*` that only loaded indexes and
+selected live offsets, on a read-write log: no error, and exactly the selected messages are
+gone. -/
+theorem thenDelete_multi_complete (l l1 : Log) (hld : Loaded l l1) (hro : l.opts.readonly = false)
+    (offs : List Int) (hlive : ∀ o ∈ offs, ∃ m ∈ (abs l).live, m.off = o) :
+    let r := thenDelete true (l1, .ok offs)
+    Inv r.1 ∧ r.2.err = none ∧
+    (abs r.1).live = (abs l).live.filter (fun m => !offs.contains m.off) ∧
+    (abs r.1).next = (abs l).next ∧
+    (∀ d, d ∈ r.2.msgs ↔ d ∈ (abs l).live ∧ d.off ∈ offs) ∧
+    r.2.msgs = (abs l).live.filter (fun m => offs.contains m.off) :=
+  Klev.thenDelete_multi_complete l l1 hld hro offs hlive
+
+/-- **Clause "when message times never decrease with offset, CompactUpdates leaves at most
+one message per key among those not newer than the cut-off".** `CompactUpdatesMulti` on a
+read-write log with non-decreasing times: it does not fail, it removes exactly the
+`FindUpdates` selection, and afterwards there is at most one message per key among those not
+newer than `t`. -/
+theorem compactUpdatesMulti_model (l : Log) (h : Inv l) (hro : l.opts.readonly = false) (t : Int)
+    (hmono : Spec.Monotone (abs l)) :
+    let r := thenDelete true (findUpdates l t)
+    r.2.err = none ∧ Spec.AtMostOnePerKey (abs r.1) t ∧
+    (∀ d, d ∈ r.2.msgs ↔ d ∈ Spec.hasLaterSameKey (Spec.scanned (abs l) t)) :=
+  Klev.compactUpdatesMulti_model l h hro t hmono
+
+/-- `CompactDeletesMulti` on a read-write log: it does not fail and removes exactly the
+`FindDeletes` selection — every value-less message not newer than `t` (in scan order) that
+is the oldest of its key. -/
+theorem compactDeletesMulti_model (l : Log) (h : Inv l) (hro : l.opts.readonly = false) (t : Int) :
+    let r := thenDelete true (findDeletes l t)
+    r.2.err = none ∧
+    (∀ d, d ∈ r.2.msgs ↔ d ∈ Spec.firstOfKeyNoValue (Spec.scanned (abs l) t) []) :=
+  Klev.compactDeletesMulti_model l h hro t
+
+/-! ### `Compact`, and repeated / alternating application -/
+
+/-- **Clause "… and Compact".** `CompactUpdates` followed by `CompactDeletes` (each in either
+mode, each with its own cut-off): the invariant holds afterwards and the latest value of
+every key is what it was before both. Since the conclusion re-establishes the hypothesis
+(`Inv`), this iterates: any repeated or alternating application of the two compactions keeps
+every key's latest value. -/
+theorem compact_latest (l : Log) (h : Inv l) (t1 t2 : Int) (m1 m2 : Bool) :
+    let r1 := thenDelete m1 (findUpdates l t1)
+    let r2 := thenDelete m2 (findDeletes r1.1 t2)
+    Inv r2.1 ∧ (abs r2.1).next = (abs l).next ∧
+      ∀ k, Spec.latest (abs r2.1) k = Spec.latest (abs l) k := by
+  intro r1 r2
+  obtain ⟨hi1, _, hn1, _, hl1, _⟩ := Klev.compactUpdates_model l h t1 m1
+  obtain ⟨hi2, _, hn2, _, hl2, _⟩ := Klev.compactDeletes_model r1.1 hi1 t2 m2
+  exact ⟨hi2, hn2.trans hn1, fun k => (hl2 k).trans (hl1 k)⟩
+
+/-- The other order: `CompactDeletes`, then `CompactUpdates`. -/
+theorem compact_latest' (l : Log) (h : Inv l) (t1 t2 : Int) (m1 m2 : Bool) :
+    let r1 := thenDelete m1 (findDeletes l t1)
+    let r2 := thenDelete m2 (findUpdates r1.1 t2)
+    Inv r2.1 ∧ (abs r2.1).next = (abs l).next ∧
+      ∀ k, Spec.latest (abs r2.1) k = Spec.latest (abs l) k := by
+  intro r1 r2
+  obtain ⟨hi1, _, hn1, _, hl1, _⟩ := Klev.compactDeletes_model l h t1 m1
+  obtain ⟨hi2, _, hn2, _, hl2, _⟩ := Klev.compactUpdates_model r1.1 hi1 t2 m2
+  exact ⟨hi2, hn2.trans hn1, fun k => (hl2 k).trans (hl1 k)⟩
+
+/-- **The quantifier "for all reachable states".** After any history from an empty directory
+opened with any options, with no hypothesis on the reached state, for every cut-off and both
+modes: both compactions keep the invariant and the latest value of every key, and remove
+only what they promise. -/
+theorem compaction_reachable (oo : OpenOpts) (ops : List Op) (t : Int) (multi : Bool) :
+    ∃ l0, Log.open [] oo = .ok l0 ∧
+      (let r := thenDelete multi (findUpdates (runOps l0 ops) t)
+       Inv r.1 ∧ (∀ k, Spec.latest (abs r.1) k = Spec.latest (abs (runOps l0 ops)) k) ∧
+         Spec.CompactUpdatesRemovedOK (abs (runOps l0 ops)) t r.2.msgs) ∧
+      (let r := thenDelete multi (findDeletes (runOps l0 ops) t)
+       Inv r.1 ∧ (∀ k, Spec.latest (abs r.1) k = Spec.latest (abs (runOps l0 ops)) k) ∧
+         Spec.CompactDeletesRemovedOK (abs (runOps l0 ops)) t r.2.msgs) := by
+  obtain ⟨l0, ho, hinv, _⟩ := Klev.reach_from_empty oo ops
+  obtain ⟨a1, _, _, _, a5, a6⟩ := Klev.compactUpdates_model (runOps l0 ops) hinv t multi
+  obtain ⟨b1, _, _, _, b5, b6⟩ := Klev.compactDeletes_model (runOps l0 ops) hinv t multi
+  exact ⟨l0, ho, ⟨a1, a5, a6⟩, ⟨b1, b5, b6⟩⟩
+
 end Klev.C16
 
 #print axioms Klev.C16.findUpdates_ok
 #print axioms Klev.C16.findDeletes_ok
+#print axioms Klev.C16.mem_hasLaterSameKey
+#print axioms Klev.C16.mem_firstOfKeyNoValue
+#print axioms Klev.C16.latest_removeAll_of_later
+#print axioms Klev.C16.latest_removeAll_of_first_novalue
+#print axioms Klev.C16.compactUpdates_latest
+#print axioms Klev.C16.compactDeletes_latest
+#print axioms Klev.C16.compactUpdatesMulti_one_per_key
+#print axioms Klev.C16.findUpdates_eq
+#print axioms Klev.C16.findDeletes_eq
+#print axioms Klev.C16.compactUpdates_model
+#print axioms Klev.C16.compactDeletes_model
+#print axioms Klev.C16.thenDelete_multi_complete
+#print axioms Klev.C16.compactUpdatesMulti_model
+#print axioms Klev.C16.compactDeletesMulti_model
+#print axioms Klev.C16.compact_latest
+#print axioms Klev.C16.compact_latest'
+#print axioms Klev.C16.compaction_reachable
